@@ -236,6 +236,25 @@ int main(int argc, char **argv)
         }
         if(top % 101 == 0) vp::sample("base " + vp::hex(base.data(), base.size()) + " -> " + std::to_string(muts.size()) + " single deviations");
     }
+    // (2b) word-exhaustive family: in every valid message of a tiny family, each aligned 4-byte word in turn is replaced by
+    //      ALL 12^4 words over the alphabet (reaches what needs two or three deviations inside one word, e.g. an empty
+    //      type tag string followed by non-zero padding)
+    {
+        static const char *WT[] = {"", "i", "s", "b", "ii", "sT", "[i]"};
+        for(const char *ts : WT) for(size_t al = 1; al <= 4; ++al, ++top) {
+            if(!vp::mine(top)) continue;
+            if(vp::deadline_passed()) { vp::cap("deadline in the word-exhaustive family"); break; }
+            std::vector<ref::Arg> args;
+            for(const char *t = ts; *t; ++t) if(ref::has_data(*t)) { ref::Arg a; a.type = *t; a.u32 = 0x01020304u; a.s = "ab"; a.b = {1, 2, 3}; a.b_len = 3; args.push_back(a); }
+            std::string base = ref::encode(gen::address(al), ts, args);
+            for(size_t w = 0; w + 4 <= base.size(); w += 4) for(unsigned x = 0; x < 12u * 12 * 12 * 12; ++x) {
+                std::string m = base; unsigned y = x;
+                for(int k = 3; k >= 0; --k) { m[w + k] = (char)ALPHA[y % 12]; y /= 12; }
+                run_one((const uint8_t *)m.data(), m.size(), "word");
+            }
+        }
+        vp::bound("word_exhaustive_family", "7 type strings x address lengths 1..4: every aligned word replaced by all 12^4 words over the alphabet");
+    }
     // (3) bundle-shaped buffers: rtosc_message_length must terminate and stay inside for them too
     {
         auto alph = bgen::alphabet(2);
